@@ -1,9 +1,17 @@
-"""C03 / C04: stream elements (G-mode exhaustive product + T-mode long traces)."""
+"""C03 / C04: stream elements (G-mode exhaustive product + T-mode long traces).
+
+Two contracts: specs/stream/StreamContract.tla (one sink, one source: buffers, FIFOs, converters, gearbox,
+PipelinedActor users incl. Shifter ...) and specs/stream/StreamRoute.tla (Multiplexer / Demultiplexer / Crossbar
+with a selector that may change in any cycle, and their compositions with buffers)."""
+import json
+import os
 import random
 
 from ..gcheck import GFamily, run_batches
 from .. import tracecheck
 from ..families import stream as fam
+from ..families import streamroute as rfam
+from ..report import ROOT, load_findings
 
 FAMILY = GFamily("stream/StreamGraph", "stream/StreamTrace", "harness.families.stream:make", hint=fam.Hint(),
                  fmt="hash", clause_map={"InOrderExactlyOnce": "InOrderExactlyOnceT", "Bounded": "BoundedT",
@@ -19,6 +27,44 @@ TCLAUSES = {
     "C03": ["InOrderExactlyOnceT", "BoundedT", "BoundedDelivery"],
     "C04": ["ValidHoldT", "BoundedProgress", "BoundedProgressSink"],
 }
+
+
+# routing elements with a dynamic selector (contract StreamRoute)
+ROUTE_FAMILY = GFamily("stream/StreamRouteGraph", "stream/StreamRouteTrace", "harness.families.streamroute:make",
+                       fmt="hash",
+                       clause_map={"RouteInOrderExactlyOnce": "RouteInOrderExactlyOnceT",
+                                   "UnselectedSinkNotReady": "UnselectedSinkNotReadyT",
+                                   "UnselectedSourceNotValid": "UnselectedSourceNotValidT",
+                                   "RouteBounded": "RouteBoundedT", "ValidHoldWhileRouted": "ValidHoldWhileRoutedT",
+                                   "RouteProgress": "RouteBoundedProgress",
+                                   "RouteProgressSink": "RouteBoundedProgressSink",
+                                   "RouteNothingLost": "RouteBoundedDelivery"},
+                       describe=lambda s: "%s(n=%d%s)" % (s["cls"], s["n"], "".join(
+                           ", %s=%s" % (k, s[k]) for k in ("pre", "mid", "post", "dw") if s.get(k))))
+RCLAUSES = {
+    "C03": (["RouteInOrderExactlyOnce", "UnselectedSinkNotReady", "UnselectedSourceNotValid", "RouteBounded"],
+            ["RouteNothingLost"]),
+    "C04": (["ValidHoldWhileRouted"], ["RouteProgress", "RouteProgressSink"]),
+}
+RTCLAUSES = {
+    "C03": ["RouteInOrderExactlyOnceT", "UnselectedSinkNotReadyT", "UnselectedSourceNotValidT", "RouteBoundedT",
+            "RouteBoundedDelivery"],
+    "C04": ["ValidHoldWhileRoutedT", "RouteBoundedProgress", "RouteBoundedProgressSink"],
+}
+NOTES_FINDINGS = os.path.join(ROOT, "notes", "C03b_findings.json")
+
+
+def _notes_findings(report):
+    """entries of notes/C03b_findings.json for this property whose id /verif/known_findings.json does not list yet"""
+    try:
+        with open(NOTES_FINDINGS) as f:
+            entries = json.load(f)
+    except FileNotFoundError:
+        return
+    have = {f.get("id") for f in load_findings()} | {f.get("id") for f in report.findings}
+    for e in entries:
+        if e.get("property") == report.prop and e.get("id") not in have:
+            report.findings.append(e)
 
 
 def _batches(cfgs, size):
@@ -102,6 +148,9 @@ def tmode_configs(tier):
     L.append(({"cls": "Unpack", "args": {"n": 4, "reverse": True}, "dw": 6, "pw": 2},
               C("down", dset=[0xffffff, 0x123456, 0xabcdef, 0x000001, 0x800000, 0xfc0fc0], ratio=4, reverse=1, w=6, pmax=3, cap=6)))
     L.append(({"cls": "Delay", "args": {"n": 5}, "dw": 12}, C("id", dset=[0, 0xfff, 0xa5a, 0x123], cap=7)))
+    L.append(({"cls": "Shifter", "args": {"dw": 16, "shift": 5}},
+              dict(C("shift", dset=big16, idw=16, cap=2), shift=5)))
+    L.append(({"cls": "Pipe", "args": {"latency": 2}, "dw": 24, "pw": 3}, C("id", dset=big24, pmax=7, cap=2)))
     if tier == "thorough":
         L.append(({"cls": "Gearbox", "args": {"i": 20, "o": 16, "msb": True}},
                   C("gear", dset=[0xfffff, 0x12345, 0xaaaaa, 0x55555, 1, 0x80000], fl=0, idw=20, odw=16, msb=1, cap=400)))
@@ -139,15 +188,84 @@ def run_tmode(report, prop, tier, seed):
                              f["clause"], FAMILY.describe(spec), f["l"]))
 
 
+def route_trace(spec, cfg, ncycles, rnd, pvalid, pready, psel):
+    """cycle-by-cycle run of a real routing element on the reference evaluator (no state loading) under a random
+    legal environment: producers hold unaccepted offers, selectors move with probability psel per cycle"""
+    from ..fhdl_step import Stepper
+    dut, ins, outs = rfam.make(spec)
+    st = Stepper(dut, ins, outs, engine="ref")
+    st.load(st.reset_state, tuple(0 for _ in ins))
+    hold = [None] * rfam.NP
+    si = so = 0
+    ev = []
+    for _ in range(ncycles):
+        if rnd.random() < psel:
+            si = rnd.randrange(cfg["nsi"])
+        if rnd.random() < psel:
+            so = rnd.randrange(cfg["nso"])
+        iv = [si, so]
+        for i in range(rfam.NP):
+            if i < cfg["ni"] and hold[i] is None and rnd.random() < pvalid:
+                hold[i] = list(rnd.choice(cfg["toks"]))
+            iv += [1] + hold[i] if hold[i] is not None else [0, 0, 0, 0]
+        for j in range(rfam.NP):
+            iv.append(1 if j < cfg["no"] and rnd.random() < pready else 0)
+        st.load(st.state(), tuple(iv))
+        o = [int(x) for x in st.peek()]
+        st.tick()
+        ev.append([iv, o])
+        for i in range(cfg["ni"]):
+            if hold[i] is not None and o[i] == 1:
+                hold[i] = None
+    return ev
+
+
+def run_route_tmode(report, prop, tier, seed):
+    rnd = random.Random(seed * 104729 + 7)
+    ntr = 2 if tier == "quick" else 8
+    ncyc = 300 if tier == "quick" else 1200
+    traces, meta = [], []
+    for spec, cfg in rfam.tmode_configs(tier):
+        for k in range(ntr):
+            pv, pr, ps = rnd.choice([(0.9, 0.9, 0.1), (0.5, 0.5, 0.5), (0.9, 0.3, 0.3), (0.3, 0.9, 0.05), (1.0, 1.0, 0.2)])
+            tcfg = dict(cfg)
+            tcfg["stallbound"] = 64
+            traces.append({"cfg": tcfg, "ev": route_trace(spec, cfg, ncyc, rnd, pv, pr, ps)})
+            meta.append(spec)
+    fails, st = tracecheck.validate(ROUTE_FAMILY.trace_module, traces, RTCLAUSES[prop])
+    report.add(traces_validated_against_impl=len(traces), trace_states=st["states"])
+    report.sample({"route_trace_head": {"dut": ROUTE_FAMILY.describe(meta[0]), "first_cycles": traces[0]["ev"][:4]}})
+    for f in fails:
+        spec = meta[f["tid"]]
+        tr = traces[f["tid"]]
+        sched = [e[0] for e in tr["ev"][:f["l"]]]
+        report.violation({"dut": spec, "clause": f["clause"]},
+                         {"family": ROUTE_FAMILY.graph_module, "factory": ROUTE_FAMILY.factory_path, "spec": spec,
+                          "cfg": tr["cfg"], "schedule": sched, "trace_module": ROUTE_FAMILY.trace_module,
+                          "trace_invariants": RTCLAUSES[prop], "observed": tr["ev"][:f["l"]], "clause": f["clause"]},
+                         "%s violated by %s in a recorded trace at cycle %s" % (
+                             f["clause"], ROUTE_FAMILY.describe(spec), f["l"]))
+
+
 def run(prop, report, tier, seed):
+    _notes_findings(report)
     invs, props = CLAUSES[prop]
     cfgs = fam.configs(tier)
     report.assume("producer keeps valid and token steady until accepted (stream protocol); exhaustive G-mode at "
                   "reduced widths (1-4 bit payload alphabets), realistic widths only sampled in T-mode")
     report.assume("FHDL netlist semantics = litex/gen/sim/core.py (compiled stepper cross-checked against it)")
-    stats = run_batches(FAMILY, report, _batches(cfgs, 14 if tier == "quick" else 6), invs, props,
+    stats = run_batches(FAMILY, report, _batches(cfgs, 14 if tier == "quick" else 4), invs, props,
                         spec_budget=80000 if tier == "quick" else 600000,
                         total_budget=900000 if tier == "quick" else 3000000)
     report.add(duts_explored=len(stats), clauses=invs + props, per_dut=stats)
+    # routing elements: selector inputs that may change in any cycle (own contract module)
+    report.assume("routing elements: the selector is an environment input that may change in any cycle; a source's "
+                  "hold obligation covers the cycles in which the route of the presented token is unchanged "
+                  "(specs/stream/StreamRoute.tla); Crossbar = its Multiplexer connected to its Demultiplexer")
+    rinvs, rprops = RCLAUSES[prop]
+    rstats = run_batches(ROUTE_FAMILY, report, _batches(rfam.configs(tier), 8), rinvs, rprops,
+                         spec_budget=400000, total_budget=2000000)
+    report.add(duts_explored=len(rstats), clauses=rinvs + rprops, per_dut=rstats)
     run_tmode(report, prop, tier, seed)
+    run_route_tmode(report, prop, tier, seed)
     report.cov["exhaustive"] = True
